@@ -571,8 +571,16 @@ def _obs_part(np, ttb, q):
     if isinstance(q, ttb.ktensor):
         return {"kind": "k", "weights": [tgen.exact(x) for x in q.weights], "factors": [tgen.obs_matrix(np, f) for f in q.factor_matrices]}
     core = q.core
+    # a factor held as a scipy coo matrix is read through its stored triples (summed per position by pure Python)
+    def fac(f):
+        if hasattr(f, "row") and hasattr(f, "col"):
+            A = [[0] * int(f.shape[1]) for _ in range(int(f.shape[0]))]
+            for i, j, v in zip(f.row, f.col, f.data):
+                A[int(i)][int(j)] += tgen.exact(v)
+            return A
+        return tgen.obs_matrix(np, f)
     return {"kind": "t", "core": tgen.obs_dense(np, core) if isinstance(core, ttb.tensor) else tgen.obs_sparse(np, core),
-            "factors": [tgen.obs_matrix(np, f) for f in q.factor_matrices]}
+            "factors": [fac(f) for f in q.factor_matrices]}
 
 
 def _part_unchanged(shape, p, q):
@@ -1222,45 +1230,12 @@ def oracle_conv(c, o):
 
 
 # ---------------------------------------------------------------------------------------- known findings
-# A-01, A-02, A-02b, N-C01-1 (rank-0 Kruskal, /repo d9f07bf), N-C01-2, N-C01-3, N-C01-4 are all repaired in /repo: no trigger,
+# A-01, A-02, A-02b, N-C01-1 (rank-0 Kruskal, /repo d9f07bf), N-C01-2, N-C01-3, N-C01-4, N-C01-5 are all repaired in /repo: no trigger,
 # no witness — a regression is a violation. The witness inputs stay in the stream as ordinary cases (kfull with R = 0 on every
 # shape of `kshapes`, [3, 2] included; rank-0 Kruskal parts inside sums).
-# Open: N-C01-5 — ttensor(core, factors, copy=False) raises AttributeError when a factor matrix is a scipy coo_matrix (admitted by the
-# type check and by copy=True): exactly the requests tfull + ctor.copy == False + at least one coo factor.
-def _t_coo_nocopy(c):
-    """exactly the requests on which the copy=False path asks a coo matrix for its layout flags: the constructor tests the factors
-    in order with all(...), so a coo factor is reached only when every ndarray factor BEFORE it is Fortran-contiguous"""
-    ct = c.args["T"].get("ctor") if c.op == "tfull" else None
-    if not ct or ct.get("copy", True) or not ct.get("coo"):
-        return False
-    import numpy as np
-    T = c.args["T"]
-    for n, (f, d, j) in enumerate(zip(T["factors"], c.args["shape"], T["cshape"])):
-        if ct["coo"][n % len(ct["coo"])]:
-            return True
-        A = relayout(np, np.array(f, dtype=float).reshape((d, j)).astype(np_dtype(np, ct["fdt"][n % len(ct["fdt"])])),
-                     ct["lay"][n % len(ct["lay"])])
-        if not A.flags["F_CONTIGUOUS"]:
-            return False
-    return False
-
-
-TRIGGERS = {"tucker_coo_factor_nocopy": _t_coo_nocopy}
-
-
-def _w_coo_nocopy():
-    import numpy as np
-    import pyttb as ttb
-    from scipy import sparse as sps
-    core = ttb.tensor(np.array([[1.0, 2.0], [3.0, 4.0]]))
-    U0, U1 = np.array([[1.0, 0.0], [2.0, 1.0], [0.0, 3.0]]), np.array([[1.0, 1.0], [0.0, 2.0]])
-    want = np.einsum("ab,ia,jb->ij", core.data, U0, U1)
-    try:
-        T = ttb.ttensor(core, [sps.coo_matrix(U0), np.asfortranarray(U1)], copy=False)
-        d = T.full().data
-        return None if np.array_equal(d, want) else f"wrong result {d}"
-    except Exception as ex:
-        return f"ttensor(core, [coo_matrix, ndarray], copy=False) raised {type(ex).__name__}: {ex}"
-
-
-WITNESSES = {"N-C01-5": _w_coo_nocopy}
+# N-C01-5 (ttensor(core, factors, copy=False) with a scipy coo factor matrix raised AttributeError) is repaired by /repo 9d096f6
+# (ttensor._matches_order answers True for a coo matrix): no trigger, no witness — coo factor matrices with copy=True / copy=False are an
+# ordinary input class of tfull / tdouble / sums (c01_w4.py `_decorate_t(allow_coo=True)`, `gen_coo_tucker`), the former witness
+# (2 x 2 core, factors [coo 3 x 2, F-ordered 2 x 2], copy=False) is the regression case `tfull` with ctor.coo = [True, False].
+TRIGGERS = {}
+WITNESSES = {}
